@@ -371,8 +371,8 @@ def run():
                     ck.stat("model-de-ser", "both-reject")     # the model agrees with serde (F14 documents)
                     # Hparse_finite / Hresolve_finite: a stage value carries a non-finite float only if a token did
                     if p not in nonfinite_tok:
-                        case["got"] = "a %s document is unreadable (non-finite float) although no token of the source is" % kind.upper()
-                        ck.violation("the parser or the resolver produced a non-finite float from finite tokens (Hparse_finite / Hresolve_finite)", case)
+                        case["got"] = "prqlc and the model both reject the %s document prqlc wrote, and no token of the source is a non-finite float" % kind.upper()
+                        ck.violation("a document prqlc wrote is unreadable although every token is finite (Hparse_finite / Hresolve_finite fail, or the JSON layer drops something)", case)
                 else:
                     case["got"] = "model rejects a document real serde accepts: %s" % ex
                     ck.violation("serde model rejects prqlc's own %s JSON: %s" % (kind.upper(), ex) + STALE, case)
